@@ -9,6 +9,7 @@ var commands = map[string]func([]string){
 	"c01": runC01,
 	"c02": runC02,
 	"cdoc": runCDoc,
+	"cextras": runCExtras,
 	"c04": runC04,
 	"c05": runC05,
 	"c06": runC06,
